@@ -160,6 +160,19 @@ func runCheck(repo, prop, tier string) int {
 			items = append(items, vcObl{vc, o})
 		}
 	}
+	for _, c := range w.cons.Congs {
+		if !hasProp(c.Props, prop) {
+			continue
+		}
+		vc, err := w.VerifyCongruence(c)
+		if err != nil {
+			harness = append(harness, err.Error())
+			continue
+		}
+		for _, o := range vc.obls {
+			items = append(items, vcObl{vc, o})
+		}
+	}
 	if len(harness) > 0 {
 		for _, h := range harness {
 			fmt.Println("HARNESS-ERROR:", h)
@@ -187,7 +200,7 @@ func runCheck(repo, prop, tier string) int {
 			nCover++
 			if x.Status == "discharged" {
 				nCoverSat++
-			} else if x.Status == "failed" {
+			} else if x.Status == "failed" && strings.HasSuffix(x.Obl.Name, "/pre") {
 				vacuous = true
 				fmt.Printf("HARNESS-ERROR: vacuity: %s is unsatisfiable (contradictory precondition or unreachable return)\n", x.Obl.Name)
 			}
